@@ -103,8 +103,8 @@ fn gen_simple(g: &mut Gen, out: &mut Vec<String>) -> usize {
     if !g.calls.is_empty() && g.rng.chance(1, 3) {
         let (name, arity, _) = g.calls[g.rng.below(g.calls.len())].clone();
         let args: Vec<String> = (0..arity).map(|_| call_arg(g)).collect();
-        let outv = format!("r{}", g.rng.below(3));
-        let o = if g.rng.chance(1, 2) { Some(outv.as_str()) } else { None };
+        let outv = format!("r{}", g.rng.below(2));
+        let o = if g.rng.chance(2, 3) { Some(outv.as_str()) } else { None };
         out.extend(line(o, &name, &args));
         return 1;
     }
@@ -113,6 +113,12 @@ fn gen_simple(g: &mut Gen, out: &mut Vec<String>) -> usize {
         out.push("R".into());
         out.push(kw(g, &KW_RET));
         out.push(match g.rng.below(4) { 0 => "-".to_string(), 1 => enc_str("${1}"), 2 => enc_str("${n0}"), _ => enc_str(g.rng.pick_s(&VALS)) });
+        return 1;
+    }
+    if g.in_fn && g.rng.chance(1, 6) {
+        // a body-local variable that has the same name as an output variable callers use
+        let local = format!("r{}", g.rng.below(3));
+        out.extend(line(Some(&local), "set", &[format!("local-{}", g.rng.pick_s(&VALS))]));
         return 1;
     }
     match g.rng.below(5) {
@@ -165,7 +171,8 @@ pub fn gen_block(g: &mut Gen, depth: usize, out: &mut Vec<String>) {
             g.loops += 1;
             let c = format!("c{}", g.next_id);
             g.next_id += 1;
-            let bound = g.rng.below(4);
+            // mostly 0-3 iterations; sometimes many (stale call-stack entries pile up: one per execution)
+            let bound = if g.loops == 1 && g.rng.chance(1, 8) { 33 + g.rng.below(12) } else { g.rng.below(4) };
             stmts.push(line(Some(&c), "set", &["0".to_string()]));
             g.lines += 4;
             s.push("W".into());
